@@ -289,6 +289,16 @@ class Crate:
             return None
         return self.fns.get("%s::promoted[%s]" % (fn.name, idx))
 
+    def find_closure(self, text):
+        """the closure body whose environment type is the {closure@...} mentioned in `text`"""
+        m = re.search(r"\{closure@[^}]*\}", text)
+        if not m:
+            return None
+        for fn in self.fns.values():
+            if fn.kind == "fn" and fn.params and fn.params[0][1].replace("&mut ", "").replace("&", "") == m.group(0):
+                return fn
+        return None
+
     def find(self, callee):
         c = callee
         if c in self.bykey:
@@ -565,6 +575,8 @@ class Ex:
             fields = rv[3]
             vals = [self.operand(frame, o) for o in (fields.values() if isinstance(fields, dict) else fields)]
             variant = None
+            if rv[2] == "unit":
+                return Agg([], name, name)
             base = re.sub(r"::<.*?>(?=::|$)", "", name)
             last = base.split("::")[-1]
             if "::" in base:
